@@ -61,6 +61,55 @@ def ambiguous_imports(rng):
     return files
 
 
+def case_twins(rng):
+    """definitions whose names differ only in letter case (`Point`, `POINT`, `point`): any ordering of the
+    emitted items that ignores case leaves their relative order to chance"""
+    stems = rng.sample(["Point", "Kind", "Node", "Hdr"], rng.randint(1, 3))
+    items = []
+    for st in stems:
+        forms = [st, st.upper(), st.lower(), st[0].lower() + st[1:].upper()]
+        rng.shuffle(forms)
+        for i, f in enumerate(forms[:rng.randint(2, 4)]):
+            if rng.random() < 0.3:
+                items.append("pub enum %s: u8 { A = %d, B }" % (f, i))
+            else:
+                items.append("pub type %s { pub a: [u8; %d], pub p: *const %s }" % (f, 4 * (i + 1), forms[0]))
+    rng.shuffle(items)
+    files = {"twins.pyxis": "\n".join(items) + "\n"}
+    if rng.random() < 0.5:
+        files["other.pyxis"] = "use twins;\npub type User { pub x: %s, pub y: *mut %s }\n" % (stems[0], stems[0].upper())
+    return files
+
+
+def generated_vftable_refs(rng):
+    """fields (never signatures: F7b) that name a GENERATED `<T>Vftable` type, in the owner's module and through
+    `use a::<T>Vftable;` from another one: the name exists only once its owner has been attempted, and must then
+    resolve -- whichever item is attempted first"""
+    n = rng.randint(1, 3)
+    a = []
+    for i in range(n):
+        fs = ";\n".join("        pub fn f%d_%d(&%sself%s)" % (i, k, "mut " if rng.random() < 0.5 else "", ", x: u32" if rng.random() < 0.5 else "")
+                        for k in range(rng.randint(1, 3)))
+        a.append("pub type Base%d {\n    vftable {\n%s;\n    },\n    pub id: u32,\n}" % (i, fs))
+    if rng.random() < 0.5:
+        a.append("pub type Local { pub vt: *const Base0Vftable, pub n: u32 }")
+    rng.shuffle(a)
+    uses = ["use a::Base%d;" % i for i in range(n)] + ["use a::Base%dVftable;" % i for i in range(n)]
+    rng.shuffle(uses)
+    fields = []
+    for i in range(n):
+        fields.append("    pub vt%d: *const Base%dVftable" % (i, i))
+        if rng.random() < 0.5:
+            fields.append("    pub first%d: *mut Base%d" % (i, i))
+        if rng.random() < 0.3:
+            fields.append("    pub tables%d: [*const Base%dVftable; 2]" % (i, i))
+    rng.shuffle(fields)
+    b = "\n".join(uses) + "\npub type Registry {\n" + ",\n".join(fields) + ",\n    pub count: u32,\n}\n"
+    if rng.random() < 0.4:
+        b += "pub type Holder { pub table: Base0Vftable, pub tail: u32 }\n"
+    return {"a.pyxis": "\n".join(a) + "\n", "b.pyxis": b}
+
+
 def runner(pid, prop, tier, seed, scratch, replay=None):
     rng = random.Random(seed)
     ninputs, budget, nfresh = (40, 24, 4) if tier == "quick" else (250, 100, 8)
@@ -80,6 +129,10 @@ def runner(pid, prop, tier, seed, scratch, replay=None):
             inputs.append((files, 4 if j % 2 == 0 else 8, exp))
         for j in range(8 if tier == "quick" else 60):
             inputs.append((ambiguous_imports(random.Random(seed * 9176 + j)), 4 if j % 2 == 0 else 8, None))
+        for j in range(6 if tier == "quick" else 40):
+            inputs.append((case_twins(random.Random(seed * 5519 + j)), 4 if j % 2 == 0 else 8, None))
+        for j in range(6 if tier == "quick" else 40):
+            inputs.append((generated_vftable_refs(random.Random(seed * 3571 + j)), 4 if j % 2 == 0 else 8, None))
         i = 0
         while len(inputs) < ninputs + len(base):
             files, exp = gen.generate(seed * 100003 + i, 4 if i % 2 == 0 else 8, PROFILE)
